@@ -274,7 +274,7 @@ func c09Run(c *mon.Ctx, idx int) {
 	}
 }
 
-const c09NStress = 11
+const c09NStress = 12
 
 type C09Base struct{ A int }
 type c09Embedded struct {
@@ -432,6 +432,65 @@ func c09Stress(c *mon.Ctx, k int) {
 			expect("s matches \"^v{"+fmt.Sprint(min(n, 1000))+"}\"", d, "T", "threshold-string-lengths")
 			expect("any m as k, v { k == "+key+" and v == "+val+" }", d, "T", "threshold-string-lengths")
 		}
+	case 11: // more distinct Go types in one process than any per-type table holds (4096+)
+		nt := tierN(c.Tier, 4200, 20000)
+		run := func(text string, label string, mk func(i int) (interface{}, string)) {
+			c.Risk("stress many-types " + label)
+			ev, err, pan, _ := createEval(text)
+			if pan != "" || err != nil {
+				c.Violation("C09 stress create-failed many-types", "a stress expression was rejected", map[string]any{"expression": text, "error": fmt.Sprint(err) + pan})
+				return
+			}
+			for i := 0; i < nt; i++ {
+				d, want := mk(i)
+				o := evaluate(ev, d)
+				c.Evals(1)
+				switch {
+				case o.Class() == "P":
+					c.Violation("C09 panic stress many-types "+label+" site="+o.Site, "Evaluate panicked after the process had seen many distinct Go types", map[string]any{"expression": text, "types_seen": i + 1, "go_type": fmt.Sprintf("%T", d), "panic": o.Panic})
+					return
+				case o.Class() == "E!":
+					c.Violation("C09 error-with-true stress many-types", "error returned together with true", map[string]any{"expression": text})
+					return
+				case o.Class3() != want:
+					c.Violation(fmt.Sprintf("C09 stress-outcome many-types %s got=%s want=%s", label, o.Class3(), want), "outcome differs from what the construction implies after many distinct Go types", map[string]any{"expression": text, "types_seen": i + 1, "go_type": fmt.Sprintf("%T", d), "observed": o.String()})
+					return
+				}
+			}
+		}
+		arr := func(i int) reflect.Value {
+			v := reflect.New(reflect.ArrayOf(i+1, reflect.TypeOf(0))).Elem()
+			v.Index(0).SetInt(7)
+			return v
+		}
+		run(`7 in l`, "array-types/in", func(i int) (interface{}, string) { return map[string]interface{}{"l": arr(i).Interface()}, "T" })
+		run(`l contains 7`, "array-types/contains", func(i int) (interface{}, string) { return map[string]interface{}{"l": arr(i).Interface()}, "T" })
+		run(`any l as x { x == 7 }`, "array-types/any", func(i int) (interface{}, string) { return map[string]interface{}{"l": arr(i).Interface()}, "T" })
+		run(`l is empty`, "array-types/empty", func(i int) (interface{}, string) { return map[string]interface{}{"l": arr(i).Interface()}, "F" })
+		st := func(i int) reflect.Value {
+			t := reflect.StructOf([]reflect.StructField{{Name: "F", Type: reflect.TypeOf(0)}, {Name: fmt.Sprintf("X%d", i), Type: reflect.TypeOf("")}, {Name: "L", Type: reflect.SliceOf(reflect.ArrayOf(i%50, reflect.TypeOf(int8(0))))}})
+			v := reflect.New(t).Elem()
+			v.Field(0).SetInt(7)
+			v.Field(1).SetString("s")
+			return v
+		}
+		run(`F == 7 and L is empty`, "struct-types/root", func(i int) (interface{}, string) { return st(i).Interface(), "T" })
+		run(`s.F != 7`, "struct-types/pointer", func(i int) (interface{}, string) { return map[string]interface{}{"s": st(i).Addr().Interface()}, "F" })
+		run(`any l as e { e.F == 7 }`, "slice-of-struct-types", func(i int) (interface{}, string) {
+			v := st(i)
+			l := reflect.MakeSlice(reflect.SliceOf(v.Type()), 1, 1)
+			l.Index(0).Set(v)
+			return map[string]interface{}{"l": l.Interface()}, "T"
+		})
+		run(`k in m and m.k == 7`, "map-types", func(i int) (interface{}, string) {
+			m := reflect.MakeMap(reflect.MapOf(reflect.TypeOf(""), reflect.TypeOf(0)))
+			_ = m
+			t := reflect.MapOf(reflect.TypeOf(""), st(i).Type())
+			mm := reflect.MakeMap(t)
+			mm.SetMapIndex(reflect.ValueOf("k"), st(i))
+			return map[string]interface{}{"m": mm.Interface()}, "E"
+		})
+		c.Count("stress:many-distinct-types")
 	case 8: // many operands (long flat chain under a budget) evaluated on data
 		n := tierN(c.Tier, 12000, 60000)
 		var sb strings.Builder
@@ -463,7 +522,7 @@ func init() {
 			return 300
 		},
 		Required: func(tier string) []string {
-			l := []string{"zoo_entries", "stress:big-list", "stress:big-iface-list", "stress:big-map", "stress:long-string", "stress:deep-maps", "stress:deep-lists-and-pointers", "stress:nested-quantifiers", "stress:embedded", "stress:long-chain", "stress:threshold-sizes", "stress:threshold-path-lengths", "stress:threshold-string-lengths", "random_evaluations", "outcome:T", "outcome:F", "outcome:E", "random_unspecified_covered"}
+			l := []string{"zoo_entries", "stress:big-list", "stress:big-iface-list", "stress:big-map", "stress:long-string", "stress:deep-maps", "stress:deep-lists-and-pointers", "stress:nested-quantifiers", "stress:embedded", "stress:long-chain", "stress:threshold-sizes", "stress:threshold-path-lengths", "stress:threshold-string-lengths", "stress:many-distinct-types", "random_evaluations", "outcome:T", "outcome:F", "outcome:E", "random_unspecified_covered"}
 			for _, op := range append(append([]string{}, c01Ops...), "not", "quantifier", "connective") {
 				for _, z := range []string{"nil", "int", "chan", "func", "complex128", "struct", "slice-iface-mixed", "slice-ptr-nil", "slice-ptrptr", "map-int-key", "map-named-key", "nilptr", "cyclic-map", "unsafe.Pointer"} {
 					l = append(l, "cell:"+op+"/"+z+"@map")
